@@ -1,6 +1,8 @@
-(* Lemmas about Model/VmArith.v: typed = generic when the tags match, guarded = generic (or the
-   exact exceptions), and the counterexamples for the unchecked reads.  No float axiom is
-   needed: the typed / guarded / generic families share the same float kernels. *)
+(* Lemmas about Model/VmArith.v.  Since fix 7e82908 every type-specialised opcode checks its
+   operand tags, so the typed and guarded families equal the generic operation on EVERY pair of
+   64-bit words (Eq/Ne on two floats excepted: IEEE == versus the raw-bits shortcut of Value ==).
+   The counterexamples for the unchecked reads survive as lemmas about the *_old definitions.
+   No float axiom is needed: the families share the same float kernels. *)
 From Aelys Require Import Base.Tactics Extracted.ValueConsts Extracted.Opcodes Model.Value
   Proofs.ValueProofs Model.VmArith.
 From Coq Require Import Floats.
@@ -53,47 +55,96 @@ Ltac kinds a b Ha Hb :=
   try (rewrite (int_float_excl a Ha Ia) in Fa; discriminate);
   try (rewrite (int_float_excl b Hb Ib) in Fb; discriminate).
 
-(* ------------------------------------------------------------------ typed = generic when tagged *)
-Lemma typed_arith_ii_agrees (hv : heapview) (o : aop) (a b : N) :
-  is_int a = true -> is_int b = true -> t_arith_ii o a b = g_arith hv o a b.
-Proof.
-  intros Ia Ib. unfold g_arith, g_arith_num, t_arith_ii. views. rewrite Ia, Ib. reflexivity.
-Qed.
-
-Lemma typed_bit_ii_agrees (o : bop) (a b : N) :
-  is_int a = true -> is_int b = true -> t_bit_ii o a b = g_bit o a b.
-Proof. intros Ia Ib. unfold g_bit, t_bit_ii. views. rewrite Ia, Ib. reflexivity. Qed.
-
-Lemma typed_not_i_agrees (a : N) : is_int a = true -> t_not_i a = g_bitnot a.
-Proof. intros Ia. unfold g_bitnot, t_not_i. views. rewrite Ia. reflexivity. Qed.
-
+(* ------------------------------------------------------------------ typed = generic, all words *)
 Definition is_ord (o : cop) : bool := match o with CEq | CNe => false | _ => true end.
+Definition is_num (w : N) : bool := is_int w || is_float w.
 
-Lemma typed_ord_ii_agrees (hv : heapview) (o : cop) (a b : N) :
-  is_ord o = true -> is_int a = true -> is_int b = true -> t_cmp_ii o a b = g_cmp hv o a b.
-Proof.
-  intros Ho Ia Ib. unfold g_cmp, g_ord, t_cmp_ii. views. rewrite Ia, Ib.
-  destruct o; try discriminate; reflexivity.
-Qed.
+Lemma typed_arith_ii_total (hv : heapview) (o : aop) (a b : N) : t_arith_ii hv o a b = g_arith hv o a b.
+Proof. reflexivity. Qed.
+Lemma typed_cmp_ii_total (hv : heapview) (o : cop) (a b : N) : t_cmp_ii hv o a b = g_cmp hv o a b.
+Proof. reflexivity. Qed.
+Lemma typed_bit_ii_total (o : bop) (a b : N) : t_bit_ii o a b = g_bit o a b.
+Proof. reflexivity. Qed.
+Lemma typed_not_i_total (a : N) : t_not_i a = g_bitnot a.
+Proof. reflexivity. Qed.
 
-Lemma typed_arith_ff_agrees (hv : heapview) (o : aop) (a b : N) :
-  a < W64 -> b < W64 -> is_float a = true -> is_float b = true ->
-  t_arith_ff o a b = g_arith hv o a b.
+Lemma typed_arith_ff_total (hv : heapview) (o : aop) (a b : N) :
+  a < W64 -> b < W64 -> t_arith_ff hv o a b = g_arith hv o a b.
 Proof.
-  intros Ha Hb Fa Fb. unfold g_arith, g_arith_num, t_arith_ff, as_float_unchecked. views.
+  intros Ha Hb. unfold t_arith_ff. views.
+  destruct (is_float a) eqn:Fa; [|reflexivity]. destruct (is_float b) eqn:Fb; [|reflexivity].
+  unfold g_arith, g_arith_num. views.
   rewrite (float_not_int a Ha Fa), (float_not_int b Hb Fb), Fa, Fb. reflexivity.
 Qed.
 
-Lemma typed_ord_ff_agrees (hv : heapview) (o : cop) (a b : N) :
-  is_ord o = true -> a < W64 -> b < W64 -> is_float a = true -> is_float b = true ->
-  t_cmp_ff o a b = g_cmp hv o a b.
+Lemma typed_ord_ff_total (hv : heapview) (o : cop) (a b : N) :
+  is_ord o = true -> a < W64 -> b < W64 -> t_cmp_ff hv o a b = g_cmp hv o a b.
 Proof.
-  intros Ho Ha Hb Fa Fb. unfold g_cmp, g_ord, t_cmp_ff, as_float_unchecked. views.
+  intros Ho Ha Hb. unfold t_cmp_ff. views.
+  destruct (is_float a) eqn:Fa; [|reflexivity]. destruct (is_float b) eqn:Fb; [|reflexivity].
+  unfold g_cmp, g_ord. views.
   rewrite (float_not_int a Ha Fa), (float_not_int b Hb Fb), Fa, Fb.
   destruct o; try discriminate; reflexivity.
 Qed.
 
-(* EqII / NeII on the integer words the VM creates (Value::int n) *)
+(* EqFF / NeFF: generic whenever the operands are not two floats *)
+Lemma typed_eq_ff_nonfloat (hv : heapview) (o : cop) (a b : N) :
+  is_float a && is_float b = false -> t_cmp_ff hv o a b = g_cmp hv o a b.
+Proof.
+  intros H. unfold t_cmp_ff. views.
+  destruct (is_float a); [|reflexivity]. destruct (is_float b); [discriminate|reflexivity].
+Qed.
+
+(* immediates: the C field is a small non-negative int *)
+Lemma imm_in48 (c : N) : c < 256 -> in48 (Z.of_N c).
+Proof. unfold in48. lia. Qed.
+
+Lemma typed_arith_imm_total (hv : heapview) (o : aop) (a c : N) :
+  c < 256 -> t_arith_imm hv o a c = g_arith hv o a (v_int (Z.of_N c)).
+Proof.
+  intros Hc. unfold t_arith_imm. views. destruct (is_int a) eqn:Ia; [|reflexivity].
+  unfold g_arith, g_arith_num. rewrite (int_roundtrip_lemma _ (imm_in48 c Hc)). views. rewrite Ia. reflexivity.
+Qed.
+
+Lemma typed_cmp_imm_total (hv : heapview) (o : cop) (a c : N) :
+  is_ord o = true -> c < 256 -> t_cmp_imm hv o a c = g_cmp hv o a (v_int (Z.of_N c)).
+Proof.
+  intros Ho Hc. unfold t_cmp_imm. views. destruct (is_int a) eqn:Ia; [|reflexivity].
+  unfold g_cmp, g_ord. rewrite (int_roundtrip_lemma _ (imm_in48 c Hc)). views. rewrite Ia.
+  destruct o; try discriminate; reflexivity.
+Qed.
+
+Lemma typed_bit_imm_total (o : bop) (a c : N) :
+  c < 256 -> t_bit_imm o a c = g_bit o a (v_int (Z.of_N c)).
+Proof.
+  intros Hc. unfold t_bit_imm, g_bit. rewrite (int_roundtrip_lemma _ (imm_in48 c Hc)). views.
+  destruct (is_int a); reflexivity.
+Qed.
+
+(* loop super-instructions *)
+Lemma while_loop_total (a b : N) : while_loop_lt a b = g_ord CLt a b.
+Proof.
+  unfold while_loop_lt, g_ord. views. destruct (is_int a), (is_int b); reflexivity.
+Qed.
+
+Lemma forloop_spec (incl : bool) (i e s : N) :
+  forloop_i incl i e s =
+  match as_int i, as_int e, as_int s with
+  | Some x, Some y, Some z =>
+      Some (v_int (x + z),
+            if (0 <? z)%Z then (if incl then (x + z <=? y)%Z else (x + z <? y)%Z)
+            else (if incl then (y <=? x + z)%Z else (y <? x + z)%Z))
+  | _, _, _ => None
+  end.
+Proof. reflexivity. Qed.
+
+Lemma forloop_error_iff (incl : bool) (i e s : N) :
+  forloop_i incl i e s = None <-> is_int i && is_int e && is_int s = false.
+Proof.
+  unfold forloop_i. views. destruct (is_int i), (is_int e), (is_int s); cbn; split; intro H; try discriminate; reflexivity.
+Qed.
+
+(* ------------------------------------------------------------------ EqII / NeII facts (ints built by Value::int) *)
 Lemma as_int_unchecked_v_int (n : Z) : as_int_unchecked (v_int n) = wrap48 n.
 Proof.
   pose proof (int_wrap_lemma n) as H. rewrite as_int_view, int_is_int in H.
@@ -116,65 +167,15 @@ Proof.
   destruct (x =? y)%Z; [reflexivity|]. rewrite !int_ptr_none. reflexivity.
 Qed.
 
-Lemma typed_eq_ii_agrees (hv : heapview) (o : cop) (x y : Z) :
-  in48 x -> in48 y -> t_cmp_ii o (v_int x) (v_int y) = g_cmp hv o (v_int x) (v_int y).
+(* the generic Eq/Ne on ints is integer equality (what the typed EqII computed and computes) *)
+Lemma g_cmp_ints (hv : heapview) (o : cop) (x y : Z) :
+  in48 x -> in48 y -> g_cmp hv o (v_int x) (v_int y) = ROk (v_bool (int_cmp o x y)).
 Proof.
-  intros Hx Hy. destruct (is_ord o) eqn:Ho.
-  - apply typed_ord_ii_agrees; [exact Ho | apply int_is_int | apply int_is_int].
-  - unfold t_cmp_ii, g_cmp. rewrite !as_int_unchecked_v_int, !wrap48_id by assumption.
-    destruct o; try discriminate; rewrite (g_eq_ints hv x y Hx Hy); reflexivity.
+  intros Hx Hy. unfold g_cmp, g_ord. views. rewrite !int_is_int, !as_int_unchecked_v_int, !wrap48_id by assumption.
+  destruct o; cbn [int_cmp]; rewrite ?(g_eq_ints hv x y Hx Hy); reflexivity.
 Qed.
 
-(* immediates: the C field is a small non-negative int *)
-Lemma imm_in48 (c : N) : c < 256 -> in48 (Z.of_N c).
-Proof. unfold in48. lia. Qed.
-
-Lemma typed_arith_imm_agrees (hv : heapview) (o : aop) (a c : N) :
-  is_int a = true -> c < 256 -> t_arith_imm o a c = g_arith hv o a (v_int (Z.of_N c)).
-Proof.
-  intros Ia Hc. unfold g_arith, g_arith_num, t_arith_imm.
-  rewrite (int_roundtrip_lemma _ (imm_in48 c Hc)). views. rewrite Ia. reflexivity.
-Qed.
-
-Lemma typed_cmp_imm_agrees (hv : heapview) (o : cop) (a c : N) :
-  is_ord o = true -> is_int a = true -> c < 256 ->
-  t_cmp_imm o a c = g_cmp hv o a (v_int (Z.of_N c)).
-Proof.
-  intros Ho Ia Hc. unfold g_cmp, g_ord, t_cmp_imm.
-  rewrite (int_roundtrip_lemma _ (imm_in48 c Hc)). views. rewrite Ia.
-  destruct o; try discriminate; reflexivity.
-Qed.
-
-Lemma typed_bit_imm_agrees (o : bop) (a c : N) :
-  is_int a = true -> c < 256 -> t_bit_imm o a c = g_bit o a (v_int (Z.of_N c)).
-Proof.
-  intros Ia Hc. unfold g_bit, t_bit_imm.
-  rewrite (int_roundtrip_lemma _ (imm_in48 c Hc)). views. rewrite Ia. reflexivity.
-Qed.
-
-(* loop super-instructions: with int registers they compute the checked comparison *)
-Lemma while_loop_agrees (hv : heapview) (a b : N) :
-  is_int a = true -> is_int b = true -> ROk (v_bool (while_loop_lt a b)) = g_cmp hv CLt a b.
-Proof.
-  intros Ia Ib. unfold g_cmp, g_ord, while_loop_lt. views. rewrite Ia, Ib. reflexivity.
-Qed.
-
-Lemma forloop_agrees (incl : bool) (i e s : N) :
-  is_int i = true -> is_int e = true -> is_int s = true ->
-  exists x y z, as_int i = Some x /\ as_int e = Some y /\ as_int s = Some z /\
-    forloop_i incl i e s =
-      (v_int (x + z),
-       if (0 <? z)%Z then (if incl then (x + z <=? y)%Z else (x + z <? y)%Z)
-       else (if incl then (y <=? x + z)%Z else (y <? x + z)%Z)).
-Proof.
-  intros Ii Ie Is. exists (as_int_unchecked i), (as_int_unchecked e), (as_int_unchecked s).
-  views. rewrite Ii, Ie, Is. repeat split; reflexivity.
-Qed.
-
-(* ------------------------------------------------------------------ guarded families *)
-Definition is_num (w : N) : bool := is_int w || is_float w.
-
-(* ...IIG arithmetic is the generic operation on every pair of words *)
+(* ------------------------------------------------------------------ guarded families, all words *)
 Lemma guarded_arith_iig_total (hv : heapview) (o : aop) (a b : N) :
   a < W64 -> b < W64 -> gd_arith_iig hv o a b = g_arith hv o a b.
 Proof.
@@ -183,19 +184,10 @@ Proof.
     unfold g_arith, g_arith_num; views; rewrite ?Ia, ?Fa, ?Ib, ?Fb; reflexivity.
 Qed.
 
-(* ...FFG arithmetic is the generic operation unless both operands are ints (it promotes both) *)
-Lemma guarded_arith_ffg_sound (hv : heapview) (o : aop) (a b : N) :
-  a < W64 -> b < W64 -> is_int a && is_int b = false ->
-  gd_arith_ffg hv o a b = g_arith hv o a b.
-Proof.
-  intros Ha Hb Hn. unfold gd_arith_ffg. unfold g_arith at 2. unfold g_arith_num. views.
-  kinds a b Ha Hb; try discriminate; try reflexivity;
-    unfold g_arith, g_arith_num; views; rewrite ?Ia, ?Fa, ?Ib, ?Fb; reflexivity.
-Qed.
+Lemma guarded_arith_ffg_total (hv : heapview) (o : aop) (a b : N) :
+  a < W64 -> b < W64 -> gd_arith_ffg hv o a b = g_arith hv o a b.
+Proof. exact (guarded_arith_iig_total hv o a b). Qed.
 
-(* ordering comparisons (after fix 5bb247f the non-numeric case falls back to the generic
-   comparison): ...IIG = generic on EVERY pair of words, ...FFG unless both operands are ints
-   (then it compares the promoted floats: same answer, but that needs a float fact) *)
 Lemma guarded_ord_iig_total (hv : heapview) (o : cop) (a b : N) :
   is_ord o = true -> a < W64 -> b < W64 -> gd_cmp_iig hv o a b = g_cmp hv o a b.
 Proof.
@@ -204,16 +196,74 @@ Proof.
     unfold g_cmp, g_ord; views; rewrite ?Ia, ?Fa, ?Ib, ?Fb; reflexivity.
 Qed.
 
-Lemma guarded_ord_ffg_sound (hv : heapview) (o : cop) (a b : N) :
-  is_ord o = true -> a < W64 -> b < W64 -> is_int a && is_int b = false ->
-  gd_cmp_ffg hv o a b = g_cmp hv o a b.
+Lemma guarded_ord_ffg_total (hv : heapview) (o : cop) (a b : N) :
+  is_ord o = true -> a < W64 -> b < W64 -> gd_cmp_ffg hv o a b = g_cmp hv o a b.
+Proof. exact (guarded_ord_iig_total hv o a b). Qed.
+
+(* Eq / Ne: guarded = generic when no operand is a float *)
+Lemma guarded_eq_ints (hv : heapview) (o : cop) (x y : Z) :
+  in48 x -> in48 y ->
+  gd_cmp_iig hv o (v_int x) (v_int y) = g_cmp hv o (v_int x) (v_int y).
 Proof.
-  intros Ho Ha Hb Hn. unfold gd_cmp_ffg. unfold g_cmp at 2. unfold g_ord. views.
-  kinds a b Ha Hb; try discriminate; destruct o; try discriminate; try reflexivity;
-    unfold g_cmp, g_ord; views; rewrite ?Ia, ?Fa, ?Ib, ?Fb; reflexivity.
+  intros Hx Hy. rewrite (g_cmp_ints hv o x y Hx Hy). unfold gd_cmp_iig. views.
+  rewrite !int_is_int, !as_int_unchecked_v_int, !wrap48_id by assumption. reflexivity.
 Qed.
 
-(* the behaviour before fix 5bb247f, kept as a statement about the OLD definition only *)
+Lemma guarded_eq_nonnum (hv : heapview) (o : cop) (a b : N) :
+  a < W64 -> b < W64 -> is_num a && is_num b = false ->
+  gd_cmp_iig hv o a b = g_cmp hv o a b /\ gd_cmp_ffg hv o a b = g_cmp hv o a b.
+Proof.
+  intros Ha Hb Hn. unfold is_num in *. unfold gd_cmp_ffg, gd_cmp_iig. views.
+  kinds a b Ha Hb; try discriminate; split; reflexivity.
+Qed.
+
+(* ------------------------------------------------------------------ what is still different: Eq on two floats *)
+Definition W_2_5 : N := 0x4004000000000000.      (* 2.5 *)
+Definition W_3_5 : N := 0x400C000000000000.      (* 3.5 *)
+
+(* EqFF / EqIIG / EqFFG on the canonical NaN say false (IEEE), generic Eq says true (Value ==
+   starts with a raw-bits comparison).  Both operands ARE floats: no value is misread. *)
+Lemma eq_nan_differs :
+  is_float CANONICAL_NAN = true /\
+  t_cmp_ff no_heap CEq CANONICAL_NAN CANONICAL_NAN = ROk (v_bool false) /\
+  gd_cmp_iig no_heap CEq CANONICAL_NAN CANONICAL_NAN = ROk (v_bool false) /\
+  g_cmp no_heap CEq CANONICAL_NAN CANONICAL_NAN = ROk (v_bool true).
+Proof. vm_compute. repeat split; reflexivity. Qed.
+
+(* ------------------------------------------------------------------ the OLD definitions (before 7e82908) *)
+Lemma old_addii_misread_float :
+  is_float W_2_5 = true /\
+  g_arith no_heap AAdd W_2_5 (v_int 1) = ROk W_3_5 /\
+  t_arith_ii no_heap AAdd W_2_5 (v_int 1) = ROk W_3_5 /\
+  exists w, t_arith_ii_old AAdd W_2_5 (v_int 1) = ROk w /\ is_int w = true /\ w <> W_3_5.
+Proof.
+  vm_compute. repeat split; try reflexivity.
+  eexists. repeat split; try reflexivity. discriminate.
+Qed.
+
+Lemma old_addff_misread_int :
+  g_arith no_heap AAdd (v_int 1) (v_int 2) = ROk (v_int 3) /\
+  t_arith_ff no_heap AAdd (v_int 1) (v_int 2) = ROk (v_int 3) /\
+  t_arith_ff_old AAdd (v_int 1) (v_int 2) = ROk CANONICAL_NAN.
+Proof. vm_compute. repeat split; reflexivity. Qed.
+
+Lemma old_loops_misread_float :
+  (g_ord CLt (v_int 0) W_2_5 = Some true /\ while_loop_lt (v_int 0) W_2_5 = Some true /\
+   while_loop_lt_old (v_int 0) W_2_5 = false) /\
+  (forloop_i false (v_int 0) W_2_5 (v_int 1) = None /\
+   forloop_i_old false (v_int 0) W_2_5 (v_int 1) = (v_int 1, false)) /\
+  (g_cmp no_heap CLt 0x401E000000000000 (v_int 5) = ROk (v_bool false) /\     (* 7.5 < 5 *)
+   t_cmp_imm no_heap CLt 0x401E000000000000 5 = ROk (v_bool false) /\
+   t_cmp_imm_old CLt 0x401E000000000000 5 = ROk (v_bool true)).
+Proof. vm_compute. repeat split; reflexivity. Qed.
+
+Lemma old_ffg_promoted_ints :
+  gd_arith_ffg_old no_heap ADiv (v_int 7) (v_int 2) = ROk W_3_5 /\
+  gd_arith_ffg no_heap ADiv (v_int 7) (v_int 2) = ROk (v_int 3) /\
+  g_arith no_heap ADiv (v_int 7) (v_int 2) = ROk (v_int 3).
+Proof. vm_compute. repeat split; reflexivity. Qed.
+
+(* the behaviour before fix 5bb247f *)
 Definition gd_cmp_iig_old (hv : heapview) (o : cop) (a b : N) : vres :=
   match as_int a, as_int b with
   | Some l, Some r => ROk (v_bool (int_cmp o l r))
@@ -232,85 +282,10 @@ Lemma old_guarded_ord_answered_false :
   gd_cmp_iig no_heap CLt v_null (v_int 1) = RErr ETypeError.
 Proof. vm_compute. repeat split; reflexivity. Qed.
 
-(* Eq / Ne: guarded = generic when no operand is a float (ints as created by Value::int, or a
-   non-number on either side) *)
-Lemma guarded_eq_ints (hv : heapview) (o : cop) (x y : Z) :
-  in48 x -> in48 y ->
-  gd_cmp_iig hv o (v_int x) (v_int y) = g_cmp hv o (v_int x) (v_int y).
-Proof.
-  intros Hx Hy. unfold gd_cmp_iig. views. rewrite !int_is_int.
-  exact (typed_eq_ii_agrees hv o x y Hx Hy).
-Qed.
-
-Lemma guarded_eq_nonnum (hv : heapview) (o : cop) (a b : N) :
-  is_ord o = false -> a < W64 -> b < W64 -> is_num a && is_num b = false ->
-  gd_cmp_iig hv o a b = g_cmp hv o a b /\ gd_cmp_ffg hv o a b = g_cmp hv o a b.
-Proof.
-  intros Ho Ha Hb Hn. unfold is_num in *. unfold gd_cmp_iig, gd_cmp_ffg. views.
-  kinds a b Ha Hb; try discriminate; split; reflexivity.
-Qed.
-
-(* ------------------------------------------------------------------ counterexamples *)
-Definition W_2_5 : N := 0x4004000000000000.      (* 2.5 *)
-Definition W_3_5 : N := 0x400C000000000000.      (* 3.5 *)
-
-(* AddII applied to the float 2.5 and the int 1: a non-error int, while generic Add gives 3.5 *)
-Lemma addii_misreads_float :
-  is_float W_2_5 = true /\ W_2_5 < W64 /\
-  g_arith no_heap AAdd W_2_5 (v_int 1) = ROk W_3_5 /\
-  exists w, t_arith_ii AAdd W_2_5 (v_int 1) = ROk w /\ is_int w = true /\ w <> W_3_5.
-Proof.
-  vm_compute. repeat split; try reflexivity.
-  eexists. repeat split; try reflexivity. discriminate.
-Qed.
-
-(* AddFF applied to the ints 1 and 2: NaN instead of 3 *)
-Lemma addff_misreads_int :
-  g_arith no_heap AAdd (v_int 1) (v_int 2) = ROk (v_int 3) /\
-  t_arith_ff AAdd (v_int 1) (v_int 2) = ROk CANONICAL_NAN.
-Proof. vm_compute. split; reflexivity. Qed.
-
-(* WhileLoopLt with a float bound: 0 < 2.5 is true, the unchecked read says false *)
-Lemma while_loop_misreads_float :
-  g_cmp no_heap CLt (v_int 0) W_2_5 = ROk (v_bool true) /\ while_loop_lt (v_int 0) W_2_5 = false.
-Proof. vm_compute. split; reflexivity. Qed.
-
-(* ForLoopI with a float bound 2.5: from 0 step 1 the loop should continue at 1, it stops *)
-Lemma forloop_misreads_float :
-  g_cmp no_heap CLt (v_int 1) W_2_5 = ROk (v_bool true) /\
-  forloop_i false (v_int 0) W_2_5 (v_int 1) = (v_int 1, false).
-Proof. vm_compute. split; reflexivity. Qed.
-
-(* LtIImm on a float *)
-Lemma ltimm_misreads_float :
-  g_cmp no_heap CLt 0x401E000000000000 (v_int 5) = ROk (v_bool false)     (* 7.5 < 5 *)
-  /\ t_cmp_imm CLt 0x401E000000000000 5 = ROk (v_bool true).
-Proof. vm_compute. split; reflexivity. Qed.
-
-(* guarded: DivFFG 7 2 = 3.5 but Div 7 2 = 3 ; LtIIG null 1 = Lt null 1 = TypeError (since 5bb247f);
-   EqFF / EqIIG on the canonical NaN say false, generic Eq (raw-bits shortcut) says true *)
-Lemma guarded_counterexamples :
-  gd_arith_ffg no_heap ADiv (v_int 7) (v_int 2) = ROk W_3_5 /\
-  g_arith no_heap ADiv (v_int 7) (v_int 2) = ROk (v_int 3) /\
-  gd_cmp_iig no_heap CLt v_null (v_int 1) = RErr ETypeError /\
-  g_cmp no_heap CLt v_null (v_int 1) = RErr ETypeError /\
-  gd_cmp_iig no_heap CEq CANONICAL_NAN CANONICAL_NAN = ROk (v_bool false) /\
-  t_cmp_ff CEq CANONICAL_NAN CANONICAL_NAN = ROk (v_bool false) /\
-  g_cmp no_heap CEq CANONICAL_NAN CANONICAL_NAN = ROk (v_bool true).
-Proof. vm_compute. repeat split; reflexivity. Qed.
-
-(* an int-tagged word with the sign bit set (never produced by Value::int): EqII compares
-   payloads, generic Eq compares raw bits first *)
-Lemma eqii_noncanonical_int :
-  is_int 0xFFF9000000000005 = true /\
-  t_cmp_ii CEq 0xFFF9000000000005 (v_int 5) = ROk (v_bool true) /\
-  g_cmp no_heap CEq 0xFFF9000000000005 (v_int 5) = ROk (v_bool false).
-Proof. vm_compute. repeat split; reflexivity. Qed.
-
 Lemma dispatch_numbers_check : dispatch_numbers_ok = true.
 Proof. vm_compute. reflexivity. Qed.
 
-(* ------------------------------------------------------------------ EqFF / NeFF
+(* ------------------------------------------------------------------ EqFF / NeFF on two floats
    Generic Eq goes through Value::eq (Model/Value.v: f64_eq on bit patterns), EqFF through
    the primitive-float comparison of the decoded operands.  Relating the two needs the fact
    `codec_eq` below about the codec (decode is injective up to +-0 and NaN); it is a premise
@@ -324,7 +299,7 @@ Lemma typed_eq_ff_agrees_under_codec (hv : heapview) (o : cop) (a b : N) :
   codec_eq_fact ->
   is_ord o = false -> a < W64 -> b < W64 -> is_float a = true -> is_float b = true ->
   (a <> b \/ is_nan_bits a = false) ->
-  t_cmp_ff o a b = g_cmp hv o a b.
+  t_cmp_ff hv o a b = g_cmp hv o a b.
 Proof.
   intros CE Ho Ha Hb Fa Fb Hn.
   assert (E : g_eq hv a b = PrimFloat.eqb (f_of_bits a) (f_of_bits b)).
@@ -333,7 +308,7 @@ Proof.
     - destruct Hn as [Hn|Hn]; [contradiction|]. rewrite (f64_eq_refl_nonnan b Hn). reflexivity.
     - rewrite Fa, Fb. cbn [andb]. destruct (f64_eq a b); [reflexivity|].
       rewrite !as_ptr_view, (float_ptr_excl a Ha Fa). reflexivity. }
-  unfold t_cmp_ff, g_cmp, float_cmp, as_float_unchecked.
+  unfold t_cmp_ff. views. rewrite Fa, Fb. unfold g_cmp, float_cmp.
   destruct o; try discriminate; rewrite E; reflexivity.
 Qed.
 
@@ -350,52 +325,16 @@ Lemma codec_eq_grid :
   forallb (fun a => forallb (fun b => codec_eq_on a b) codec_grid) codec_grid = true.
 Proof. vm_compute. reflexivity. Qed.
 
-(* the codec round-trips every pattern of the grid: bits_of_f (f_of_bits w) = Value::float w *)
 Lemma codec_roundtrip_grid :
   forallb (fun w => bits_of_f (f_of_bits w) =? v_float w) codec_grid = true.
 Proof. vm_compute. reflexivity. Qed.
 
-(* ------------------------------------------------------------------ packaged statements for Props/C06.v *)
-Lemma eq_ii_all_words_refuted : exists a b,
-  is_int a = true /\ is_int b = true /\ t_cmp_ii CEq a b <> g_cmp no_heap CEq a b.
-Proof.
-  exists 0xFFF9000000000005, (v_int 5).
-  destruct eqii_noncanonical_int as (H1 & H2 & H3).
-  split; [exact H1|]. split; [apply int_is_int|]. rewrite H2, H3. discriminate.
-Qed.
-
-Lemma eq_ff_nan_refuted : exists a,
-  is_float a = true /\ t_cmp_ff CEq a a = ROk (v_bool false) /\ g_cmp no_heap CEq a a = ROk (v_bool true).
-Proof.
-  exists CANONICAL_NAN. destruct guarded_counterexamples as (_ & _ & _ & _ & _ & H6 & H7).
-  split; [vm_compute; reflexivity|]. split; [exact H6 | exact H7].
-Qed.
-
-Lemma unchecked_mismatch_witness : exists a b w,
-  is_float a = true /\ a < W64 /\
-  t_arith_ii AAdd a b = ROk w /\ g_arith no_heap AAdd a b <> ROk w /\
-  g_arith no_heap AAdd a b <> RErr ETypeError.
-Proof.
-  destruct addii_misreads_float as (Hf & Hlt & Hg & w & Ht & _ & Hne).
-  exists W_2_5, (v_int 1), w.
-  split; [exact Hf|]. split; [exact Hlt|]. split; [exact Ht|]. split.
-  - rewrite Hg. intro E. injection E as E. apply Hne. symmetry. exact E.
-  - rewrite Hg. discriminate.
-Qed.
-
-Lemma guarded_total_sound_witnesses :
-  (gd_arith_ffg no_heap ADiv (v_int 7) (v_int 2) = ROk W_3_5 /\
-   g_arith no_heap ADiv (v_int 7) (v_int 2) = ROk (v_int 3)) /\
-  (gd_cmp_iig no_heap CEq CANONICAL_NAN CANONICAL_NAN = ROk (v_bool false) /\
-   g_cmp no_heap CEq CANONICAL_NAN CANONICAL_NAN = ROk (v_bool true)).
-Proof.
-  destruct guarded_counterexamples as (H1 & H2 & _ & _ & H5 & _ & H7).
-  exact (conj (conj H1 H2) (conj H5 H7)).
-Qed.
-
 Lemma nonvacuous_c06 :
   is_int (v_int (-140737488355328)) = true /\ is_float W_2_5 = true /\ W_2_5 < W64 /\
-  t_arith_ii AMul (v_int 140737488355327) (v_int 3) = ROk (v_int 140737488355325) /\
-  t_arith_ff ADiv (v_int 1) W_2_5 = ROk CANONICAL_NAN /\
-  gd_arith_iig no_heap AAdd (v_int 1) W_2_5 = ROk W_3_5.
+  t_arith_ii no_heap AMul (v_int 140737488355327) (v_int 3) = ROk (v_int 140737488355325) /\
+  t_arith_ii no_heap AAdd W_2_5 (v_int 1) = ROk W_3_5 /\
+  t_arith_ff no_heap ADiv (v_int 1) W_2_5 = g_arith no_heap ADiv (v_int 1) W_2_5 /\
+  t_arith_imm no_heap AAdd v_null 3 = RErr ETypeError /\
+  gd_arith_iig no_heap AAdd (v_int 1) W_2_5 = ROk W_3_5 /\
+  forloop_i true (v_int 1) (v_int 2) (v_int 1) = Some (v_int 2, true).
 Proof. vm_compute. repeat split; reflexivity. Qed.
